@@ -31,10 +31,12 @@ NOTES = ['every temporal distance from -1 to max(T,N)+1 is swept for every gener
          'the exact layer is taken FROM /repo: the arguments of math.log / np.log2 are spied during the call and turned back into '
          'multiplicities (compared up to order inside Coq); if a refactoring stops using these calls the double alone is compared',
          'tolerance of the float comparison: 2^-30 around the real value enclosed at 80 bits (within_sound)']
-ASSUMPTIONS = ['the laws of mutual information (symmetric, >= 0, MI(X,X) = H(X)) and H >= 0 are theorems about the REAL-VALUED definitions; the '
+ASSUMPTIONS = ['float- and bool-typed automata are carried to the model as the symbols str(x) of their states, renamed injectively to integers '
+               '(entropy is invariant under injective renaming: H_map_inj); -0.0 and nan states are not generated',
+               'the laws of mutual information (symmetric, >= 0, MI(X,X) = H(X)) and H >= 0 are theorems about the REAL-VALUED definitions; the '
                'returned doubles can break each of them by an ulp (mutual_information(\'1000101011\',\'0122111022\') = -4.4e-16) and are '
                'shown only to lie within 2^-30 of the reals (C16_mi_double_lower / C16_mi_double_symm state what follows for the doubles)',
-               'automaton states are integers (str(x) is the decimal rendering; float-typed automata are outside the model)',
+               'the theorems about automata are stated for integer states (str(x) is the decimal rendering, proved injective)',
                'joint_shannon_entropy / mutual_information are given sequences of equal length (the docstring requires it)',
                'sequences are non-empty, automata have at least one row and one column',
                'IEEE arithmetic error of a few ulp per operation is far below the tolerance 2^-30 for sequences of length <= 256']
@@ -132,6 +134,9 @@ LIST_POOLS = [['0', '1'], ['10', '1', '0', '-1', '11', '101', '2', '20', '-10', 
               # symbols that differ only by trailing NULs / trailing spaces / width (a fixed-width NumPy string array
               # strips trailing NULs: fix 602ebe5 made joint_shannon_entropy compare Python objects)
               ['', '\x00', 'a', 'a\x00', 'a ', 'ab', 'a\x00\x00', ' ', '\x00 ', 'ab\x00', 'b', '\x00a'],
+              # str(x) of float / bool cells, and float symbols themselves
+              ['0.0', '0.25', '0.5', '0.75', '1.0', '0.1', '0.3333333333333333', '1', '0', 'True', 'False', '-0.5'],
+              [0.0, 0.25, 0.5, 0.75, 1.0, 0.1, 1.0 / 3, 2.0 / 3, -0.5, -1.0, 0.3, 0.9],
               # mixed types: by ==/hash 1, 1.0 and True are ONE symbol, '1' another; 0, 0.0, False one, '0' another
               [1, '1', 1.0, True, 0, False, '0', 2, 2.5, '1.0', 'True', 0.0]]
 
@@ -140,7 +145,7 @@ def _alphabet(rng, as_list):
     k = rng.randint(1, 12)
     pool = rng.choice(LIST_POOLS if as_list else POOLS)
     if as_list and rng.random() < 0.35:          # the two delicate pools get more than their share
-        pool = LIST_POOLS[rng.choice([3, 4])]
+        pool = LIST_POOLS[rng.choice([3, 4, 5, 6])]
     pool = list(pool)
     rng.shuffle(pool)
     return pool[:max(1, min(k, len(pool)))]
@@ -203,7 +208,35 @@ def _state(rng, fam):
         return rng.choice([10 ** 18, -10 ** 18, 2 ** 62, -2 ** 62, 1, 10, 100, 1000000007, -1000000007, 11, 101, 0])
     if fam == 'near':        # large magnitudes that differ only beyond the 6th significant digit
         return rng.choice([1000000, 123456789, -10 ** 12, 2 ** 53, 99999990]) + rng.randint(0, 3)
+    if fam in DTYPE_FAMILIES:
+        return rng.choice(DTYPE_FAMILIES[fam][1])
     return 7
+
+
+# states that are not int64: the symbols are still str(x) of each state ('0.25', '1.0', 'True'); and integer alphabets
+# {0,1} / {0,1,2} / {5,6}: a path that depends on the alphabet or the value range of the automaton must not matter
+DTYPE_FAMILIES = {
+    'f_quarters': ('float64', [0.0, 0.25, 0.5, 0.75, 1.0]),
+    'f_tenths': ('float64', [0.0, 0.1, 0.2, 0.3, 0.4, 0.5, 0.6, 0.7, 0.8, 0.9, 1.0]),
+    'f_thirds': ('float64', [0.0, 1.0 / 3, 2.0 / 3, 1.0]),
+    'f_pm1': ('float64', [-1.0, -0.5, 0.0, 0.5, 1.0, 0.25]),
+    'f_01': ('float64', [0.0, 1.0]),
+    'bool': ('bool', [False, True]),
+    'i_01': ('int64', [0, 1]),
+    'i_012': ('int64', [0, 1, 2]),
+    'i_56': ('int64', [5, 6]),
+}
+
+
+def _zrows(c):
+    """the automaton as integer symbols for the model: int64 states as they are; float / bool states are replaced by
+    the index of their str() rendering (first occurrence), an injective renaming of the symbols str(x)"""
+    if c.get('dtype', 'int64') == 'int64':
+        return c['rows']
+    import numpy as np
+    arr = np.array(c['rows'], dtype=c['dtype'])
+    ids = {}
+    return [[ids.setdefault(str(x), len(ids)) for x in row] for row in arr]
 
 
 def _automaton(rng, T, N, fam):
@@ -261,6 +294,16 @@ def _generate(rng, tier):
         for d in range(-1, max(T, N) + 2):
             verdict = 'accepted' if 0 < d < T else 'rejected'
             yield {'kind': 'ami/%s/%s' % (shape, verdict), 'op': 'ami', 'rows': rows, 'd': d, 'fam': fam}
+    shapes5 = [(4, 3), (3, 5), (5, 5), (6, 2), (1, 4)] + ([] if tier == 'quick' else [(8, 8), (12, 3), (3, 12), (2, 2), (16, 5)])
+    for fam, (dtype, _vals) in DTYPE_FAMILIES.items():
+        for (T, N) in shapes5:
+            for rep in range(2):
+                rows = _automaton(rng, T, N, fam)
+                yield {'kind': 'ace/dtype/%s' % fam, 'op': 'ace', 'rows': rows, 'fam': fam, 'dtype': dtype}
+            rows = _automaton(rng, T, N, fam)
+            for d in range(0, T + 1):
+                verdict = 'accepted' if 0 < d < T else 'rejected'
+                yield {'kind': 'ami/dtype/%s/%s' % (fam, verdict), 'op': 'ami', 'rows': rows, 'd': d, 'fam': fam, 'dtype': dtype}
     n_seq = 100 if tier == 'quick' else 800
     for i in range(n_seq):
         yield _sequence_case(rng, ['edit', 'edit', 'edit', 'other', 'other', 'noedit'][i % 6])
@@ -472,8 +515,8 @@ def run_impl(c):
         rows = c['rows']
         T, N = len(rows), len(rows[0])
         if op == 'ace':
-            return _call(op, T, N, lambda: cpl.average_cell_entropy(np.array(rows, dtype=np.int64)))
-        return _call(op, T - c['d'], N, lambda: cpl.average_mutual_information(np.array(rows, dtype=np.int64), c['d']))
+            return _call(op, T, N, lambda: cpl.average_cell_entropy(np.array(rows, dtype=c.get('dtype', 'int64'))))
+        return _call(op, T - c['d'], N, lambda: cpl.average_mutual_information(np.array(rows, dtype=c.get('dtype', 'int64')), c['d']))
 
 
 def _series(rows, i):
@@ -489,8 +532,8 @@ def crefs(obs):
 def _auto_term(ctor_ace, ctor_ami, c, obs):
     o = cres(obs, cdbl)
     if c['op'] == 'ace':
-        return '(%s %s %s %s)' % (ctor_ace, cgrid(c['rows']), crefs(obs), o)
-    return '(%s %s %s %s %s)' % (ctor_ami, cgrid(c['rows']), cz(c['d']), crefs(obs), o)
+        return '(%s %s %s %s)' % (ctor_ace, cgrid(_zrows(c)), crefs(obs), o)
+    return '(%s %s %s %s %s)' % (ctor_ami, cgrid(_zrows(c)), cz(c['d']), crefs(obs), o)
 
 
 def to_coq(c, obs):
